@@ -424,7 +424,7 @@ fn cmd_check_inner(m: &HashMap<String, String>) -> i32 {
             "components",
             J::obj(vec![
                 ("real", J::Arr(vec![
-                    J::s("vek (path dependency on /repo, rebuilt from the working tree): all 13 vector types incl. their 13 IntoIter types (Iterator, DoubleEndedIterator, ExactSizeIterator, Debug, Hash, PartialEq, Drop, and whatever of Clone/PartialOrd/AsRef/AsMut/Borrow/Deref/Default they implement), From<[T;N]>, From<tuple>, new, into_array, into_tuple, FromIterator, from_slice, Default, Clone (clone and clone_from), Debug/Display/Hash/PartialEq, map/map2/map3/zip/reduce, the kind and size conversions between the vector types that have no bound on T (From<other kind>, truncating From<larger>, From<(smaller, scalar)>, Vec4 <-> Quaternion), swizzles (yx, zyx, zyxw, xy, xyz, rgb), with_x..w, shuffled_argb/bgra/bgr, Vec4::interleave_*/shuffle_lo_hi_0101/shuffle_hi_lo_2323, as_slice/as_mut_slice/AsRef/AsMut/Borrow/BorrowMut/Deref/DerefMut/&V and &mut V iteration; with element types that implement the arithmetic traits without being Copy: Add/Mul by value (right operand a vector, an array or a tuple through Into), Add with a borrowed right operand, AddAssign, Neg, mul_add, sum()/product(), impl Sum / impl Product over a source of vectors, Vec::zero()/one(), and the zero()-padded conversions Vec3::from(Vec2), Vec4::from(Vec3), Vec4::from(Vec2)"),
+                    J::s("vek (path dependency on /repo, rebuilt from the working tree): all 13 vector types incl. their 13 IntoIter types (Iterator, DoubleEndedIterator, ExactSizeIterator, Debug, Hash, PartialEq, Drop, and whatever of Clone/PartialOrd/AsRef/AsMut/Borrow/Deref/Default they implement), From<[T;N]>, From<tuple>, new, into_array, into_tuple, FromIterator, from_slice, Default, Clone (clone and clone_from), Debug/Display/Hash/PartialEq, map/map2/map3/zip/reduce, the kind and size conversions between the vector types that have no bound on T (From<other kind>, truncating From<larger>, From<(smaller, scalar)>, Vec4 <-> Quaternion), swizzles (yx, zyx, zyxw, xy, xyz, rgb), with_x..w, shuffled_argb/bgra/bgr, Vec4::interleave_*/shuffle_lo_hi_0101/shuffle_hi_lo_2323, as_slice/as_mut_slice/AsRef/AsMut/Borrow/BorrowMut/Deref/DerefMut/&V and &mut V iteration; with element types that implement the arithmetic traits without being Copy: Add/Mul by value (right operand a vector, an array or a tuple through Into), Add with a borrowed right operand, with a borrowed left operand and with both borrowed, AddAssign, Neg, mul_add, sum()/product(), impl Sum / impl Product over a source of vectors, Vec::zero()/one(), and the zero()-padded conversions Vec3::from(Vec2), Vec4::from(Vec3), Vec4::from(Vec2)"),
                     J::s("vek row_major/column_major Mat2/3/4: new, {from,into}_{row,col}_array(s), as_(mut_){row,col}_slice and _ptr, Index/IndexMut, transposed/transpose, From<other layout>, Mat3::from(Mat4) / Mat2::from(Mat4) / Mat2::from(Mat3), diagonal(), map_rows/map_cols/map/map2, Clone (clone and clone_from), Debug/Display/Hash/PartialEq, public rows/cols; Mat + Mat, -Mat, Default/identity()/zero(), and the zero()/one()-padded size conversions Mat4::from(Mat3), Mat4::from(Mat2), Mat3::from(Mat2) composed with the truncating ones"),
                     J::s("std: the provided Iterator/DoubleEndedIterator adaptors driven over the real iterator (find, position, try_fold, step_by, zip, peekable, collect, ...), unwinding (real panics, catch_unwind), mem::swap / mem::forget"),
                 ])),
@@ -458,7 +458,7 @@ fn cmd_check_inner(m: &HashMap<String, String>) -> i32 {
                 J::s("an element type whose destructor panics twice, or panics during unwinding, aborts by language rule and is not explored"),
                 J::s("array/tuple/nested-array conversions and slice views contain no user callback, so no fault can be placed inside them; the simulator contributes ledger, model and composition there"),
                 J::s("std (arrays, Vec, VecDeque, catch_unwind, slice::Iter::as_slice) is trusted"),
-                J::s("arithmetic: only Add, Mul, AddAssign, Neg, MulAdd are instantiated (the other operators come from the same macro arms); operator forms whose left operand is a reference, min/max/reduce_min.., dot and the Checked*/Overflowing*/Euclid lifts are not driven; what is checked is who owns which element, not the value computed"),
+                J::s("arithmetic: only Add, Mul, AddAssign, Neg, MulAdd are instantiated (the other operators come from the same macro arms); the forms with a borrowed left operand (&v + w, &v + &w) are driven for the leaf element shapes with identities only; &v + &scalar, min/max/reduce_min.., dot and the Checked*/Overflowing*/Euclid lifts are not driven; what is checked is who owns which element, not the value computed"),
             ]),
         ),
         ("wall_s", J::Num((wall * 1000.0).round() / 1000.0)),
